@@ -255,7 +255,8 @@ class BaseWorkplace(object, metaclass=abc.ABCMeta):
                 If True, remove `placed_workplace` to all children components
                 Default to True
         """
-        self.placed_component_list.remove(placed_component)
+        if placed_component in self.placed_component_list:
+            self.placed_component_list.remove(placed_component)
 
         if remove_to_all_children_components:
             for child_c in placed_component.child_component_list:
